@@ -17,23 +17,13 @@ Theorem c05_ledger_bounds : forall l,
 Proof. exact ledger_bounds_all_histories. Qed.
 Print Assumptions c05_ledger_bounds.
 
-(* ... and equals it exactly, provided no update adds a restricted dimension in which the
-   already assigned pods hold requests (hypothesis no_grow_op, evaluated along the run) *)
+(* ... and equals it exactly (since fix 75e0c17 recomputes it on every update) *)
 Theorem c05_ledger : forall l,
   all_along (fun _ o => op_nonneg o) init_cache l = true ->
-  all_along no_grow_op init_cache l = true ->
   forall i, In i (infos (crun init_cache l)) ->
   forall k, getv k (r_allocated i) = held i k.
-Proof. exact ledger_exact_no_growth. Qed.
+Proof. exact ledger_exact_all_histories. Qed.
 Print Assumptions c05_ledger.
-
-(* without that hypothesis the sentence is false of the code as it is (finding 1) *)
-Theorem c05_ledger_refuted :
-  all_along (fun _ o => op_nonneg o) init_cache witness_grow = true
-  /\ exists i, In i (infos (crun init_cache witness_grow))
-               /\ getv 4 (r_allocated i) = 0 /\ held i 4 = 7.
-Proof. exact ledger_exact_refuted. Qed.
-Print Assumptions c05_ledger_refuted.
 
 (* ---- restricted fit, for ALL (reservation state, request, preemptible) triples ---- *)
 
@@ -56,6 +46,16 @@ Theorem c05_no_overalloc : forall i u req pre,
   within_after i req (r_allocated i') (n_assigned i').
 Proof. exact no_overalloc. Qed.
 Print Assumptions c05_no_overalloc.
+
+(* the admission sentence on reachable states: held + request <= allocatable - reserved *)
+Theorem c05_restricted_admission : forall l,
+  all_along (fun _ o => op_nonneg o) init_cache l = true ->
+  forall i, In i (infos (crun init_cache l)) ->
+  forall req, fits_reservation i req [] = [] ->
+  forall k, In k (r_names i) -> hask k req = true -> 0 < getv k req ->
+  held i k + getv k req <= getv k (r_allocatable i) - getv k (r_reserved i).
+Proof. exact restricted_admission. Qed.
+Print Assumptions c05_restricted_admission.
 
 (* ---- allocate-once ---- *)
 
@@ -103,15 +103,9 @@ Print Assumptions c05_index_needs_stable_nodes.
 (* ---- the decision procedure that judges the implementation, on the model's own trace:
         every view dumped after every entry point of every history passes ---- *)
 
-Theorem c05_trace_weak : forall hs,
-  hist_nonneg hs = true ->
-  all_zero (codes step_code_weak hs (flags_of hs) (views_of hs)) = true.
-Proof. exact trace_weak. Qed.
-Print Assumptions c05_trace_weak.
-
 Theorem c05_trace : forall hs,
-  hist_nonneg hs = true -> hist_no_grow init_cache hs = true ->
-  all_zero (codes step_code hs (flags_of hs) (views_of hs)) = true.
+  hist_nonneg hs = true ->
+  all_zero (codes hs (flags_of hs) (views_of hs)) = true.
 Proof. exact trace_full. Qed.
 Print Assumptions c05_trace.
 
@@ -120,7 +114,6 @@ Print Assumptions c05_trace.
 
 Theorem c05_model_passes_own_check : forall inp,
   hist_nonneg (dec_history inp) = true ->
-  hist_no_grow init_cache (dec_history inp) = true ->
   prop_history inp (run_history inp) = 0.
 Proof. exact model_passes_own_check. Qed.
 Print Assumptions c05_model_passes_own_check.
@@ -132,6 +125,13 @@ Print Assumptions c05_fits_model_passes.
 Theorem c05_owners_model_passes : forall inp, prop_owners inp (run_owners inp) = 0.
 Proof. exact owners_model_passes. Qed.
 Print Assumptions c05_owners_model_passes.
+
+(* regression for finding 1: the update as it was before 75e0c17 (model flag old = true) *)
+Example c05_old_update_loses_held :
+  getv 4 (r_allocated (update_info_gen true grow_info grow_spec)) = 0
+  /\ held (update_info_gen true grow_info grow_spec) 4 = 7
+  /\ getv 4 (r_allocated (update_info_gen false grow_info grow_spec)) = 7.
+Proof. exact old_update_loses_held. Qed.
 
 (* ---- non-vacuity ---- *)
 
@@ -147,8 +147,7 @@ Definition ex_hist : list hop :=
     HRsvRemove 1 1 ].
 
 Example ex_hist_hyps :
-  hist_nonneg ex_hist = true /\ hist_no_grow init_cache ex_hist = true
-  /\ forallb (fun f : bool * list (Z * Z) => fst f) (flags_of ex_hist) = true.
+  hist_nonneg ex_hist = true /\ forallb (fun f : bool => f) (flags_of ex_hist) = true.
 Proof. vm_compute. auto. Qed.
 
 Example ex_hist_nontrivial :
